@@ -6,16 +6,14 @@ Import ListNotations.
 
 (* a request cls(n, length = l) that returns, returns a live object of class c named n of length l *)
 Theorem dom_request_result fuel ct c st n l o b :
-  class_kind ct c = Some KindD -> Good ct st -> l <> 0%Z ->
+  class_kind ct c = Some KindD -> Good ct st ->
   dom_call fuel ct c st (Some n) (Some l) None None = (fst (dom_call fuel ct c st (Some n) (Some l) None None), CRet o b) ->
   exists ob, live_obj (heap (fst (dom_call fuel ct c st (Some n) (Some l) None None))) o ob /\
              o_cls ob = c /\ o_name ob = n /\ o_data ob = DDom l.
 Proof.
-  intros Hk [I C D] Hl E. destruct fuel as [|f]; [discriminate|]. cbn [dom_call] in *.
+  intros Hk [I C D] E. destruct fuel as [|f]; [discriminate|]. cbn [dom_call] in *.
   destruct (class_kind_nth _ _ _ Hk) as [ci Eci].
-  assert (G : LenGuard ct c (Some l) None).
-  { intros ci' len1 _ E1. rewrite dom_len1_none in E1. injection E1 as <-. congruence. }
-  destruct (body_spec ct c _ st (Some n) (Some l) None None Hk (recspec_fuel ct c f Hk) I C D G) as [_ B].
+  destruct (body_spec ct c _ st (Some n) (Some l) None None Hk (recspec_fuel ct c f Hk) I C D) as [_ B].
   destruct (B ci n (Some l) o b Eci eq_refl (dom_len1_none ci (Some l))) as [ob [H1 [H2 [H3 H4]]]].
   - rewrite E. reflexivity.
   - exists ob. split; [exact H1|]. split; [exact H2|]. split; [exact H3|]. apply H4. reflexivity.
@@ -31,19 +29,18 @@ Proof.
   intros G Hi Ed E. unfold dom_complement in *. destruct Hi as [Hg Hl]. rewrite Hg, Ed in *.
   assert (Hk : class_kind ct (o_cls ob) = Some KindD).
   { destruct (g_dok _ _ G) as [_ [_ K]]. rewrite (K i ob (conj Hg Hl)), Ed. reflexivity. }
-  assert (Hl0 : l <> 0%Z) by (destruct (g_dok _ _ G) as [_ [Z _]]; apply (proj1 (Z i ob l (conj Hg Hl) Ed))).
-  apply (dom_request_result dom_fuel ct (o_cls ob) st (cname_of (o_name ob)) l o b Hk G Hl0).
+  apply (dom_request_result dom_fuel ct (o_cls ob) st (cname_of (o_name ob)) l o b Hk G).
   rewrite <- E. destruct (dom_call dom_fuel ct (o_cls ob) st (Some (cname_of (o_name ob))) (Some l) None None); reflexivity.
 Qed.
 
 (* ~~d is d: a request for the name of a live domain d that returns, returns d itself *)
 Theorem request_returns_the_live_one fuel ct c st n l i ob o b :
-  class_kind ct c = Some KindD -> Good ct st -> l <> 0%Z ->
+  class_kind ct c = Some KindD -> Good ct st ->
   live_obj (heap st) i ob -> o_cls ob = c -> o_name ob = n ->
   snd (dom_call fuel ct c st (Some n) (Some l) None None) = CRet o b -> o = i.
 Proof.
-  intros Hk G Hl Hi Ec En E.
-  destruct (dom_request_result fuel ct c st n l o b Hk G Hl) as [oo [Ho [Eo [Eno _]]]].
+  intros Hk G Hi Ec En E.
+  destruct (dom_request_result fuel ct c st n l o b Hk G) as [oo [Ho [Eo [Eno _]]]].
   { rewrite <- E. destruct (dom_call fuel ct c st (Some n) (Some l) None None); reflexivity. }
   pose proof (ext_dom_call fuel ct c st (Some n) (Some l) None None (g_inv _ _ G) (g_col _ _ G)) as X.
   pose proof (callok_dom_call fuel ct c st (Some n) (Some l) None None (g_inv _ _ G)) as [I' _].
@@ -61,7 +58,6 @@ Proof.
   intros G Hi Ed Hb Ho Ec En Edo E. unfold dom_complement in E. destruct Ho as [Hg Hl]. rewrite Hg, Edo in E.
   assert (Hk : class_kind ct (o_cls oo) = Some KindD).
   { destruct (g_dok _ _ G) as [_ [_ K]]. rewrite (K o oo (conj Hg Hl)), Edo. reflexivity. }
-  assert (Hl0 : l <> 0%Z) by (destruct (g_dok _ _ G) as [_ [Z _]]; apply (proj1 (Z o oo l (conj Hg Hl) Edo))).
   rewrite En, (cname_involutive _ Hb) in E.
-  apply (request_returns_the_live_one dom_fuel ct (o_cls oo) st (o_name ob) l i ob o2 b2 Hk G Hl0 Hi (eq_sym Ec) eq_refl E).
+  apply (request_returns_the_live_one dom_fuel ct (o_cls oo) st (o_name ob) l i ob o2 b2 Hk G Hi (eq_sym Ec) eq_refl E).
 Qed.
